@@ -16,6 +16,7 @@ RULE = ("Hypothesis draws (a) a round-robin line-up of 1-6 cheap samplers and a 
         "and 1-3 calibrate(n) sessions, (c) the four samplers/scheduler constructor-argument combinations. BaseSampler.sample is "
         "wrapped at class level (survives restore) to log which object produced each batch. Non-trivial = >= 2 calibrate calls "
         "or a restore, with a total batch count that is not a multiple of the line-up length (a) / >= 3 batches (b).")
+RULE = RULE.replace('Non-trivial = >= 2 calibrate calls or a restore,', '(d) two RL calibrations with their own schedulers running at the same time in two threads, each compared with its solo run. Non-trivial = >= 2 calibrate calls or a restore,')
 ASSUMPTIONS = ["cheap samplers only (scheduling does not depend on the sampler kind)", "RL runs use the real agent thread under "
                "the OS scheduler with a watchdog; interleavings are C10's subject"]
 SHARDS = {"quick": 8, "thorough": 16}
